@@ -28,7 +28,10 @@ type formCtx struct {
 	g     *goLayouts
 	env   map[types.Object]string // parameter -> caller's term (when inlining helper predicates)
 	alias map[*types.Var]string   // struct field -> canonical term (fields that carry the same quantity under different owners)
-	depth int
+	benv  map[types.Object]*bform // boolean local -> its current formula (symbolic evaluation of straight-line bodies)
+	// skipRange: loops over these collections are assumed to run zero times (evaluation under "the collection is empty")
+	skipRange func(e ast.Expr) bool
+	depth     int
 }
 
 // term canonicalises an operand: receiver/variable names are replaced by their static type.
@@ -114,6 +117,9 @@ func (fc *formCtx) form(e ast.Expr) *bform {
 		if x.Name == "false" {
 			return &bform{op: "false"}
 		}
+		if f, ok := fc.benv[fc.g.info.ObjectOf(x)]; ok {
+			return f
+		}
 	case *ast.CallExpr:
 		// inline a repo predicate: a single return, or a chain of `if c { return x }` guards ending in a return
 		if fn := fc.g.calleeOf(x); fn != nil && fc.depth < 5 {
@@ -128,7 +134,7 @@ func (fc *formCtx) form(e ast.Expr) *bform {
 						i++
 					}
 				}
-				inner := &formCtx{g: fc.g, env: env, alias: fc.alias, depth: fc.depth + 1}
+				inner := &formCtx{g: fc.g, env: env, alias: fc.alias, skipRange: fc.skipRange, depth: fc.depth + 1}
 				if f := inner.bodyForm(fd.Body.List); f != nil {
 					return f
 				}
@@ -145,6 +151,11 @@ func (fc *formCtx) bodyForm(stmts []ast.Stmt) *bform {
 		return nil
 	}
 	switch x := stmts[0].(type) {
+	case *ast.RangeStmt:
+		if fc.skipRange != nil && fc.skipRange(x.X) {
+			return fc.bodyForm(stmts[1:])
+		}
+		return nil
 	case *ast.ReturnStmt:
 		if len(x.Results) != 1 {
 			return nil
